@@ -1,0 +1,84 @@
+//go:build verif
+// +build verif
+
+package scheduler
+
+import (
+	"encoding/json"
+	"fmt"
+	"os"
+	"path/filepath"
+	"sync"
+)
+
+// With the build tag "verif" and VERIF_TRACE=<dir> set, every Schedule call of this process is
+// recorded as NDJSON events in <dir>/sched-<pid>.ndjson (used to validate the executions driven
+// by the repository's own tests against the specification). Nothing happens otherwise.
+
+type verifTracer struct {
+	mu     sync.Mutex
+	f      *os.File
+	seq    int
+	graphs map[*ExecutionGraph]int
+	stages map[*Stage]int // stage -> graph id
+}
+
+func (t *verifTracer) emit(ev map[string]interface{}) {
+	t.seq++
+	ev["seq"] = t.seq
+	b, _ := json.Marshal(ev)
+	_, _ = t.f.Write(append(b, '\n'))
+}
+
+func init() {
+	dir := os.Getenv("VERIF_TRACE")
+	if dir == "" {
+		return
+	}
+	f, err := os.OpenFile(filepath.Join(dir, fmt.Sprintf("sched-%d.ndjson", os.Getpid())), os.O_CREATE|os.O_WRONLY|os.O_APPEND, 0o644)
+	if err != nil {
+		return
+	}
+	t := &verifTracer{f: f, graphs: map[*ExecutionGraph]int{}, stages: map[*Stage]int{}}
+	gid := func(g *ExecutionGraph) int {
+		id, ok := t.graphs[g]
+		if !ok {
+			id = len(t.graphs) + 1
+			t.graphs[g] = id
+		}
+		return id
+	}
+	VerifScheduleHook = func(s *Scheduler, g *ExecutionGraph, enter bool, err error) {
+		t.mu.Lock()
+		defer t.mu.Unlock()
+		id := gid(g)
+		if !enter {
+			t.emit(map[string]interface{}{"e": "sched-exit", "g": id, "err": err != nil})
+			return
+		}
+		var stages []map[string]interface{}
+		for name, st := range g.Nodes() {
+			t.stages[st] = id
+			d := map[string]interface{}{"name": name, "deps": g.To(name), "allow": st.AllowFailure, "cond": st.Condition != "", "status": st.ReadStatus()}
+			if st.Pipeline != nil {
+				d["pipeline"] = gid(st.Pipeline)
+			}
+			stages = append(stages, d)
+		}
+		t.emit(map[string]interface{}{"e": "sched-enter", "g": id, "stages": stages})
+	}
+	VerifStatusHook = func(st *Stage, status int32) {
+		t.mu.Lock()
+		defer t.mu.Unlock()
+		t.emit(map[string]interface{}{"e": "st", "g": t.stages[st], "s": st.Name, "v": status})
+	}
+	VerifRunHook = func(st *Stage, enter bool, err error) {
+		t.mu.Lock()
+		defer t.mu.Unlock()
+		if enter {
+			t.emit(map[string]interface{}{"e": "enter", "g": t.stages[st], "s": st.Name})
+		} else {
+			t.emit(map[string]interface{}{"e": "ret", "g": t.stages[st], "s": st.Name, "failed": err != nil})
+		}
+	}
+}
